@@ -126,4 +126,51 @@ def bound_methods_compare_like_python(b):
   })
 
 
+class Ticker(object):
+  def __init__(self):
+    self.stop = False
+    self.fired = 0
+
+  def run(self):
+    try:
+      while not self.stop:
+        got = yield ("tick", self.fired)
+        if self.stop:
+          break
+        self.fired += 1 if got is None else got
+    except KeyError:
+      yield "caught"
+    return "end"
+
+
+def drive(t, stop_early, inc):
+  """next / send / throw / return value of an interpreted generator"""
+  g = t.run()
+  out = [next(g)]
+  if stop_early:
+    t.stop = True
+  try:
+    out.append(g.send(inc))
+    out.append(g.throw(KeyError("x")))
+    out.append(next(g))
+  except StopIteration as e:
+    out.append(("stop", e.value))
+  return (out, t.fired)
+
+
+@unit(P, target="contracts.self_engine:Ticker.run (generators)")
+def generators_suspend_and_resume(b):
+  t = b.new(Ticker)
+  stop_early = b.bool("stop_early")
+  inc = b.int("inc", 1, 5)
+  return Case(drive, [t, stop_early, inc], raises={}, ensures={
+    "ok_first_yield": lambda res: res[0][0] == ("tick", 0),
+    "ok_stopped_early_never_fires": lambda res: (not stop_early) or (res[1] == 0 and res[0][1] == ("stop", "end") and len(res[0]) == 2),
+    "ok_sent_value_is_used": lambda res: stop_early or (res[1] == inc and res[0][1] == ("tick", inc) and res[0][2] == "caught"
+                                                       and res[0][3] == ("stop", "end")),
+    "bad_fires_when_stopped": lambda res: res[1] == inc,
+    "bad_never_fires": lambda res: res[1] == 0,
+  })
+
+
 EXPECTED_REFUTED_EXC = {"exceptions_are_reported": "exc.ValueError"}
